@@ -415,6 +415,21 @@ def long_parts_in_many_pieces(FP, M, rec, rng):
             case = {"mode": "large-files-decoder", "file_sizes": list(sizes), "pieces": repr(pieces)}
             rec.violation("C01/decoder:large-parts-depend-on-the-pieces", f"two files of {sizes} bytes, pieces {pieces!r}: {str(got_ev)[:160]}", case, monitor="boundary-recorder")
             return
+    # ---- one upload above half a megabyte (sizes where defaults of other layers sit): one piece, halves, ordinary reads
+    parts_big = [(b"note", None, b"about the upload"), (b"upload", b"big.bin", bytes([48 + i % 10 for i in range(614_400)]))]
+    body_big = body_of(parts_big)
+    for pieces in ("one", "halves", 65_536, 4096):
+        rec.case()
+        rec.nontrivial(("big-upload-decoder", repr(pieces)))
+        rec.observe("uploads_above_half_a_megabyte_decoded")
+        cuts = [] if pieces == "one" else ([len(body_big) // 2] if pieces == "halves" else list(range(pieces, len(body_big), pieces)))
+        try:
+            got_ev = decode(M, body_big, bnd, cuts)
+        except Exception as e:  # noqa: BLE001
+            got_ev = ("EXC", type(e).__name__, str(e)[:80])
+        if not (isinstance(got_ev, list) and [(e_[0], e_[1], e_[4]) for e_ in got_ev] == [("file" if f_ else "field", n_.decode(), d_) for n_, f_, d_ in parts_big]):
+            rec.violation("C01/decoder:large-parts-depend-on-the-pieces", f"one upload of 614400 bytes, pieces {pieces!r}: {str(got_ev)[:160]}", {"mode": "big-upload-decoder", "pieces": repr(pieces)}, monitor="boundary-recorder")
+            return
     for bs in (1000, 4096, 65_536, 100_000, 150_000, len(body) + 1, None):
         rec.case()
         rec.nontrivial(("large-files-parser", sizes, bs))
